@@ -172,6 +172,30 @@ pub mod openssl {
             #[verifier::external_body]
             pub fn public_key_to_pem(&self) -> (r: Result<Vec<u8>, ErrorStack>) ensures r matches Ok(v) ==> v@ == public_pem(self.ident@) { unimplemented!() }
         }
+        impl PKey<Private> {
+            // key generation / wrapping: the kind of the key that comes out
+            #[verifier::external_body]
+            pub fn generate_ed25519() -> (r: Result<PKey<Private>, ErrorStack>)
+                ensures r matches Ok(k) ==> k.kind@ == (KeyKind { id: Id::ED25519, rsa_size: 0, curve: None }) { unimplemented!() }
+            #[verifier::external_body]
+            pub fn generate_ed448() -> (r: Result<PKey<Private>, ErrorStack>)
+                ensures r matches Ok(k) ==> k.kind@ == (KeyKind { id: Id::ED448, rsa_size: 0, curve: None }) { unimplemented!() }
+        }
+        impl<T> PKey<T> {
+            #[verifier::external_body]
+            pub fn from_rsa(k: super::rsa::Rsa<T>) -> (r: Result<PKey<T>, ErrorStack>)
+                ensures r matches Ok(p) ==> p.kind@ == (KeyKind { id: Id::RSA, rsa_size: k.size, curve: None }) && p.ident == k.ident { unimplemented!() }
+            #[verifier::external_body]
+            pub fn from_ec_key(k: super::ec::EcKey<T>) -> (r: Result<PKey<T>, ErrorStack>)
+                ensures r matches Ok(p) ==> p.kind@ == (KeyKind { id: Id::EC, rsa_size: 0, curve: k.curve@ }) && p.ident == k.ident { unimplemented!() }
+            // EVP_PKEY_bits: the modulus size of an RSA key, the field size of an EC key
+            #[verifier::external_body]
+            pub fn bits(&self) -> (r: u32)
+                ensures self.kind@.id == Id::RSA ==> r as int == self.kind@.rsa_size as int * 8,
+                    self.kind@.id == Id::EC && self.kind@.curve == Some(super::nid::Nid::X9_62_PRIME256V1) ==> r == 256,
+                    self.kind@.id == Id::EC && self.kind@.curve == Some(super::nid::Nid::SECP384R1) ==> r == 384,
+                    self.kind@.id == Id::EC && self.kind@.curve == Some(super::nid::Nid::SECP521R1) ==> r == 521 { unimplemented!() }
+        }
         impl<T> PKey<T> {
             #[verifier::external_body]
             pub fn id(&self) -> (r: Id) ensures r == self.kind@.id { unimplemented!() }
@@ -251,6 +275,12 @@ pub mod openssl {
         pub struct Rsa<T> { pub size: u32, pub ident: Ghost<int>, pub p: Option<T> }
         pub uninterp spec fn rsa_e(ident: int) -> Seq<u8>;
         pub uninterp spec fn rsa_n(ident: int) -> Seq<u8>;
+        impl Rsa<super::pkey::Private> {
+            // RSA_generate_key_ex: a key whose modulus has `bits` bits
+            #[verifier::external_body]
+            pub fn generate(bits: u32) -> (r: Result<Rsa<super::pkey::Private>, super::error::ErrorStack>)
+                ensures r matches Ok(k) ==> k.size == bits / 8 { unimplemented!() }
+        }
         impl<T> Rsa<T> {
             #[verifier::external_body] pub fn size(&self) -> (r: u32) ensures r == self.size { unimplemented!() }
             #[verifier::external_body] pub fn e(&self) -> (r: &super::bn::BigNumRef) ensures r.be@ == rsa_e(self.ident@) { unimplemented!() }
@@ -282,6 +312,9 @@ pub mod openssl {
                         r matches Ok(g) ==> g.curve@ == Some(n) { unimplemented!() }
             #[verifier::external_body]
             pub fn curve_name(&self) -> (r: Option<Nid>) ensures r == self.curve@ { unimplemented!() }
+            // EC_GROUP_set_asn1_flag: how the group is written out; the curve stays the curve
+            #[verifier::external_body]
+            pub fn set_asn1_flag(&mut self, f: Asn1Flag) ensures final(self).curve == old(self).curve { unimplemented!() }
             // bit length of the field (EC_GROUP_get_degree): 256 / 384 / 521 for the three supported curves
             #[verifier::external_body]
             pub fn degree(&self) -> (r: u32)
@@ -292,6 +325,16 @@ pub mod openssl {
             pub fn order_bits(&self) -> (r: u32)
                 ensures self.curve@ == Some(Nid::X9_62_PRIME256V1) ==> r == 256, self.curve@ == Some(Nid::SECP384R1) ==> r == 384, self.curve@ == Some(Nid::SECP521R1) ==> r == 521
             { unimplemented!() }
+        }
+        pub struct Asn1Flag { pub id: u8 }
+        impl Asn1Flag {
+            pub const EXPLICIT_CURVE: Asn1Flag = Asn1Flag { id: 0 };
+            pub const NAMED_CURVE: Asn1Flag = Asn1Flag { id: 1 };
+        }
+        impl EcKey<super::pkey::Private> {
+            #[verifier::external_body]
+            pub fn generate(g: &EcGroupRef) -> (r: Result<EcKey<super::pkey::Private>, ErrorStack>)
+                ensures r matches Ok(k) ==> k.curve == g.curve { unimplemented!() }
         }
         impl<T> EcKey<T> {
             #[verifier::external_body] pub fn group(&self) -> (r: &EcGroupRef) ensures r.curve == self.curve { unimplemented!() }
